@@ -120,5 +120,53 @@ def run(rep):
                         bad("C14:wrong-intent", "the sRGB chunk replacing the profile does not carry the profile's rendering intent")
     rep.sample("optlog %s - <png, colour space %s>" % (cs.meta["c2"]["opts"], cs.meta["c2"]["cs"]))
 
+    # (c) the raw-image entry point: attached ICC profile / sRGB chunk on gray-valued truecolour samples
+    import struct
+    rc = vlib.Cases()
+    for k in range(40 if quick else 600):
+        ct, depth = rng.choice([(2, 8), (6, 8), (2, 16), (6, 16)])
+        w, h = rng.choice([(16, 16), (24, 10), (9, 9)])
+        tok, _ = imggen.gen(rng, ct, depth, w, h, False, "gray" if k % 4 else "random", "none")
+        kind = rng.choice(["icc-srgb", "icc-other", "srgb-chunk"])
+        if kind == "srgb-chunk":
+            extra = f"{b'sRGB'.hex()}:{bytes([rng.randrange(4)]).hex()}"
+        else:
+            extra = "icc:" + chunkgen.icc_profile(rng, "srgb" if kind == "icc-srgb" else "other").hex()
+        pol = rng.choice(["none", "none", "safe", "keep:" + b"iCCP".hex(), "keep:" + b"sRGB".hex() + "+" + b"iCCP".hex()])
+        o = f"preset={rng.choice([0, 2, 3])},strip={pol}"
+        rc.add(f"rawlog {o} {tok} {extra}", kind=kind, pol=pol, tok=tok)
+    rri = vlib.run_cases(impl, rc.lines)
+    mlines = []
+    rres = {}
+    for line in rc.lines:
+        cid, _, rest = line.partition(" ")
+        r, recs = e2e.split_result(rri.get(cid))
+        rres[cid] = r
+        mlines.append(f"{cid} raw_replay{rest[len('rawlog'):]} {recs}")
+    rrm = vlib.run_cases(model, mlines)
+    rep.evaluations += len(rc.lines)
+    for cid, m in rc.meta.items():
+        mr = (rrm.get(cid) or "").partition(" #unused-deflate=")[0]
+        if vlib.canon(rres[cid]) != vlib.canon(mr):
+            rep.corr_break("RawImage API with colour-space metadata", vlib.short(m["cmd"], 300), vlib.short(rres[cid], 200), vlib.short(rrm.get(cid), 200))
+        r = rres[cid]
+        if not r.startswith("ok "):
+            continue
+        rep.nontriv(m["cmd"])
+        oc = pg.read_chunks(bytes.fromhex(r[3:]))
+        oct_ = struct.unpack(">IIBBBBB", oc[0][1])[3]
+        names = [n_ for n_, _ in oc]
+        keep = c07.keep_fn(m["pol"], safe)
+        gray_moved = oct_ in (0, 4)
+        has_cs = b"iCCP" in names or b"sRGB" in names
+        if gray_moved and has_cs:
+            rep.violation("C14:colourspace-after-gray-change", "raw image: converted to grayscale but still carries sRGB/iCCP", {"cases": [m["cmd"]]})
+        if gray_moved and m["kind"] == "icc-other" and keep(b"iCCP"):
+            rep.violation("C14:converted-despite-icc", "raw image: converted to grayscale although its (non-sRGB) ICC profile is to be kept", {"cases": [m["cmd"]]})
+        if gray_moved and m["kind"] == "srgb-chunk" and m["pol"] == "none":
+            rep.violation("C14:srgb-converted-without-strip", "raw image tagged sRGB was converted to grayscale although stripping is disabled", {"cases": [m["cmd"]]})
+        if gray_moved and m["kind"] == "icc-srgb" and keep(b"iCCP") and not (m["pol"] != "none" and keep(b"sRGB")):
+            rep.violation("C14:converted-despite-icc", "raw image: converted to grayscale although its ICC profile is to be kept", {"cases": [m["cmd"]]})
+
 
 replay = c01.replay
